@@ -14,7 +14,8 @@ import sys
 
 REPO = os.environ.get('EMD_REPO', '/repo')
 SRC = os.path.join(REPO, 'emd', 'sift.py')
-OUT = os.path.join(os.path.dirname(os.path.dirname(os.path.abspath(__file__))), 'coq', 'gen', 'Gen_Defaults.v')
+OUT = os.path.join(os.environ.get('EMD_COQ_DIR') or os.path.join(os.path.dirname(os.path.dirname(os.path.abspath(__file__))), 'coq'),
+                   'gen', 'Gen_Defaults.v')
 STAGES = ['_sift_with_noise', 'get_next_imf', 'get_next_imf_mask', 'get_mask_freqs', 'interp_envelope',
           'get_padded_extrema']
 # fall-backs the model's effective_options relies on: they must be found, in a form that is understood
